@@ -53,6 +53,30 @@ CONDS = [
 ]
 
 
+# Offset bookkeeping of src/iv_tls.c, generated into the SEPARATE file Gen/LeafTls.v (Leaf.v stays as it is) and
+# linked to the model Small/TlsModel.v by Small/TlsLink.v.  Same 4-tuples as FUNCS; keys of the assume dict that
+# start with '#' are translation options, not assumptions:
+#   #fatal_calls: a statement-level call of one of these (noreturn) functions ends the path with None, the result
+#                 type becomes `option`;
+#   #mark_calls:  a statement-level call of one of these functions is not translated (its effect is on the intrusive
+#                 list, modelled in Small/ListPtrModel.v); WHICH function is called is reported as the out-field
+#                 `list_call` (the code given here).
+# Writes to file-scope variables (last_offset) are out-fields like writes through pointer parameters.
+TLS_FUNCS = [
+    ("tls_user_register", "iv_tls_user_register", "iv_tls.c",
+     {"#fatal_calls": ["iv_fatal"], "#mark_calls": {"iv_list_add_tail": 1, "iv_list_add": 2}}),
+]
+
+# static initialisers of file-scope variables: (gallina name, C variable, source file); `sizeof (T)` becomes the Z
+# parameter sizeof_<T>.  Also generated into Gen/LeafTls.v.
+TLS_GLOBAL_INITS = [
+    ("tls_initial_offset", "last_offset", "iv_tls.c"),
+]
+
+# errors of the translations that go to separate files (file name -> message); Leaf.v errors are main()'s result
+LAST_ERRORS = {}
+
+
 class Unsupported(Exception):
     pass
 
@@ -83,6 +107,26 @@ def src_text(node, cache={}):
     return None
 
 
+def ast_var_of(cfile, var, incdir):
+    """the VarDecl (with initialiser) of a file-scope variable"""
+    cmd = ["clang", "-fsyntax-only", "-D_GNU_SOURCE", "-DHAVE_CONFIG_H", "-I" + incdir,
+           "-I" + os.path.join(REPO, "src", "include"), "-I" + os.path.join(REPO, "src"),
+           "-Xclang", "-ast-dump=json", "-Xclang", "-ast-dump-filter=" + var, os.path.join(REPO, "src", cfile)]
+    p = subprocess.run(cmd, stdout=subprocess.PIPE, stderr=subprocess.PIPE, text=True)
+    txt = p.stdout
+    dec = json.JSONDecoder()
+    i = 0
+    while i < len(txt):
+        while i < len(txt) and txt[i].isspace():
+            i += 1
+        if i >= len(txt):
+            break
+        d, i = dec.raw_decode(txt, i)
+        if d.get("kind") == "VarDecl" and d.get("name") == var and d.get("inner"):
+            return d
+    raise Unsupported("initialised variable %s not found in %s (clang: %s)" % (var, cfile, p.stderr[-300:]))
+
+
 class Tr:
     def __init__(self, name, decl, assume, known):
         self.name = name
@@ -94,6 +138,11 @@ class Tr:
         self.int_params = set()
         self.outfields = []         # written fields of pointer params, in order of first write
         self.fresh = 0
+        # translation options (keys of the assume dict starting with '#'), see TLS_FUNCS
+        self.fatal_calls = set(assume.get("#fatal_calls", []))
+        self.mark_calls = dict(assume.get("#mark_calls", {}))
+        self.has_fatal = False
+        self.locals = set()         # names of block-scope variables (every other VarDecl is file-scope)
 
     # ---- parameters are discovered lazily (fields used) ----
     def use_param(self, p):
@@ -189,6 +238,10 @@ class Tr:
             return "(%s)" % call
         if k == "GNUNullExpr" or k == "CXXNullPtrLiteralExpr":
             return "0"
+        if k == "UnaryExprOrTypeTraitExpr" and n.get("name") == "sizeof" and n.get("argType"):
+            # sizeof (T): a parameter (the value is supplied by whoever uses the definition)
+            ty = n["argType"].get("qualType", "")
+            return self.use_param("sizeof_" + "".join(c if c.isalnum() else "_" for c in ty))
         raise Unsupported("expression kind %s" % k)
 
     def is_null(self, n):
@@ -255,6 +308,9 @@ class Tr:
         n = self.strip(n)
         if n["kind"] == "MemberExpr" and n.get("isArrow"):
             return True
+        if n["kind"] == "DeclRefExpr" and n["referencedDecl"].get("kind") == "VarDecl" \
+                and n["referencedDecl"]["name"] not in self.locals:
+            return True             # a file-scope variable
         return False
 
     def result(self, ret, env):
@@ -274,6 +330,7 @@ class Tr:
             for d in s.get("inner", []):
                 if d["kind"] != "VarDecl":
                     raise Unsupported("declaration %s" % d["kind"])
+                self.locals.add(d["name"])
                 if "inner" in d and d["inner"]:
                     env = self.assign(d["name"], self.z(d["inner"][0], env), env, False)
             return self.exec(rest, env)
@@ -320,6 +377,13 @@ class Tr:
                               self.out_target(s["inner"][0]))
             return self.exec(rest, env)
         if k == "CallExpr":
+            callee = self.strip(s["inner"][0])
+            fn = callee["referencedDecl"]["name"] if callee["kind"] == "DeclRefExpr" else None
+            if fn in self.fatal_calls:
+                self.has_fatal = True
+                return ("FATAL",)
+            if fn in self.mark_calls:
+                return self.exec(rest, self.assign("list_call", str(self.mark_calls[fn]), env, True))
             return self.call(s, env, lambda r, env2: self.exec(rest, env2))
         raise Unsupported("statement kind %s" % k)
 
@@ -390,9 +454,12 @@ class Tr:
         if t[0] == "RET":
             _, ret, env = t
             outs = [env.get(o, "0") for o in self.outfields]     # a field not written on this path is reported as 0
+            some = "Some " if self.has_fatal else ""
             if outs:
-                return pad + "(" + ", ".join([ret] + outs) + ")"
-            return pad + ret
+                return pad + some + "(" + ", ".join([ret] + outs) + ")"
+            return pad + ((some + "(" + ret + ")") if some else ret)
+        if t[0] == "FATAL":
+            return pad + "None"
         if t[0] == "IF":
             _, c, a, b = t
             return "%sif %s then\n%s\n%selse\n%s" % (pad, c, self.render(a, ind + 1), pad, self.render(b, ind + 1))
@@ -425,10 +492,11 @@ class Tr:
             if p not in order:
                 order.append(p)
         # out-fields that are also read before written stay parameters; that is fine
+        rty = "Z" if not self.outfields else "(" + " * ".join(["Z"] * (1 + len(self.outfields))) + ")%type"
+        if self.has_fatal:
+            rty = "option " + rty
         text = "Definition %s %s : %s :=\n%s.\n" % (
-            self.name, " ".join("(%s : Z)" % p for p in order) if order else "(_ : unit)",
-            "Z" if not self.outfields else "(" + " * ".join(["Z"] * (1 + len(self.outfields))) + ")%type",
-            self.render(tree, 1))
+            self.name, " ".join("(%s : Z)" % p for p in order) if order else "(_ : unit)", rty, self.render(tree, 1))
         return text, order, list(self.outfields), cparams
 
 
@@ -621,6 +689,38 @@ def main(out_path=None):
         if cnew != cold:
             os.makedirs(os.path.dirname(cond_path), exist_ok=True)
             open(cond_path, "w").write(cnew)
+        # Gen/LeafTls.v (TLS_FUNCS, TLS_GLOBAL_INITS).  A construct outside the subset does not disturb Leaf.v and its
+        # users: the file then holds no definitions (Small/TlsLink.v stops compiling) and the message is kept in
+        # LAST_ERRORS for the check that owns the file (C18)
+        tparts = ["(* LeafTls.v -- GENERATED by gen/c2gallina.py (TLS_FUNCS, TLS_GLOBAL_INITS) from the current C source of\n"
+                  "   /repo/src/iv_tls.c.  Do not edit.  Conventions as in Leaf.v; a path that calls iv_fatal yields None; writes\n"
+                  "   to file-scope variables are out-fields; list_call names the list primitive called (1 = iv_list_add_tail,\n"
+                  "   2 = iv_list_add); sizeof (T) is the parameter sizeof_T. *)\n"
+                  "From Coq Require Import ZArith Bool.\nFrom Ivv Require Import Gen.Leaf.\nLocal Open Scope Z_scope.\n\n"]
+        LAST_ERRORS.pop("LeafTls.v", None)
+        try:
+            for gname, fn, cfile, opts in TLS_FUNCS:
+                decl = ast_of(cfile, fn, inc)
+                tr = Tr(gname, decl, opts, dict(known))
+                text, order, outs, cparams = tr.translate()
+                tparts.append("(* %s() of src/%s *)\n" % (fn, cfile))
+                tparts.append(text + "\n")
+            for gname, var, cfile in TLS_GLOBAL_INITS:
+                decl = ast_var_of(cfile, var, inc)
+                tr = Tr(gname, decl, {}, dict(known))
+                body = tr.z(decl["inner"][-1], {})
+                tparts.append("(* static initialiser of %s in src/%s *)\n" % (var, cfile))
+                tparts.append("Definition %s %s : Z :=\n  %s.\n\n" % (
+                    gname, " ".join("(%s : Z)" % p for p in tr.params) if tr.params else "(_ : unit)", body))
+        except (Unsupported, KeyError, IndexError) as e:
+            LAST_ERRORS["LeafTls.v"] = "c2gallina: iv_tls.c: unsupported construct: %s" % (e,)
+            tparts = [tparts[0], "(* TRANSLATION FAILED: %s *)\n" % str(e).replace("*)", "* )")]
+        tls_path = os.path.join(os.path.dirname(out_path), "LeafTls.v")
+        tnew = "".join(tparts)
+        told = open(tls_path).read() if os.path.exists(tls_path) else None
+        if tnew != told:
+            os.makedirs(os.path.dirname(tls_path), exist_ok=True)
+            open(tls_path, "w").write(tnew)
         new = "".join(parts)
         old = open(out_path).read() if os.path.exists(out_path) else None
         if new != old:
